@@ -58,6 +58,19 @@ SUMMARY.update({
  "C20-b": ("C20", "messages.rs Vote and QC digests drop the round", "a vote / QC relabelled with another round"),
 })
 
+SUMMARY.update({
+ "C01-c": ("C01", "core.rs process_block commit gate checks b1.round + 1 == block.round (same edit as C05-a, found independently; demo shows conflicting commits among four honest nodes)", "view changes producing b0 <- b1 (gap) <- block and a sibling of b0 certified inside the gap"),
+ "C03-c": ("C03", "core.rs: last_voted_round bump moved after sending the vote; the 'I am the next leader' branch returns early and skips it", "the node is the next leader and the current leader equivocates"),
+ "C04-c": ("C04", "core.rs handle_timeout verifies only the author when timeout.high_qc.round < self.round, yet still adopts that QC as high_qc", "node entered its round through a TC; a member sends a self-signed timeout with a forged QC of a round between high_qc and the current round"),
+ "C06-c": ("C06", "core.rs: timer.reset moved from advance_round to process_qc (TC-driven round changes no longer re-arm the timer)", "a view change while the live nodes' timers are out of phase"),
+ "C08-d": ("C08", "core.rs handle_proposal: returns early when the parent is missing, before the payload check; the sync-resumed block is never checked", "child before parent, child references a batch the node lacks"),
+ "C09-d": ("C09", "core.rs handle_proposal: leader check moved after the missing-payload early return (payload-resumed blocks skip it)", "a non-leader's block for the current round with a batch that arrives later"),
+ "C12-c": ("C12", "reliable_sender.rs keep_alive: on a failed read the oldest pending message is dropped (its handle resolves with an error, which the quorum waiter counts as an ack)", "peers whose connection resets after receiving the batch and before acknowledging"),
+ "C13-d": ("C13", "mempool/src/helper.rs replies to the requestor's transactions address instead of its mempool address", "a node that really misses a batch; distinct transaction and mempool ports"),
+ "C16-d": ("C16", "store Store::write uses try_send and a detached task when the channel is full", "more than 100 outstanding commands: a later read overtakes the write"),
+ "C17-b": ("C17", "mempool config.rs only: quorum = N - N/3", "total stake divisible by 3 (consensus and mempool disagree)"),
+})
+
 def confirmed(d):
     out = {}
     for tag in ("with", "without"):
